@@ -615,7 +615,10 @@ func runC29(planAny any, cfg simrt.Config) *simkit.Outcome {
 			// the window an execution selects starts at the end of the latest
 			// successful execution committed before it selects; a different start
 			// means it selected before that one committed (or started somewhere else)
-			serial := s == prev.End.Unix()
+			// (an explicit back-fill that ended before the frontier does not
+			// move the schedule: the next window then continues at the frontier,
+			// i.e. at the end of the latest successful execution in time order)
+			serial := s == prev.End.Unix() || (prev.Explicit && s == frontier)
 			// did it select its window while an earlier-committed successful
 			// execution was still in flight? (handler log times)
 			inFlight := false
